@@ -648,6 +648,22 @@ func TestZZVerifG10Explore(t *testing.T) {
 		t.Logf("GET %s -> %d %s %s", p, r.Code, r.Body, r.Err)
 	}
 
+	for _, pb := range strings.Split(os.Getenv("VERIF_G10_POST"), ";;") {
+		if pb == "" {
+			continue
+		}
+
+		x := strings.SplitN(pb, "|", 3)
+		if x[0] == "RESTART" {
+			t.Logf("restart: %v %v", a.stop(), a.start())
+
+			continue
+		}
+
+		r := a.do(x[0], x[1], []byte(x[2]))
+		t.Logf("%s %s %s -> %d %s %s", x[0], x[1], x[2], r.Code, r.Body, r.Err)
+	}
+
 	for i := 0; i < 100; i++ {
 		if zzG10Sig(a.ask("blk0.g10.test", dns.TypeA, "")) != "A=192.0.2.1" {
 			t.Logf("blk0 blocked after %d polls", i)
@@ -710,6 +726,7 @@ var zzG10Rewrites = map[string][2]string{
 
 var zzG10Services = map[string][]string{
 	"none": {}, "s1": {"4chan"}, "s12": {"4chan", "500px"}, "s2": {"500px"}, "s1p": {"4chan"},
+	"unknown": {"4chan", "nosuchservice"},
 }
 
 var zzG10Num = map[string]int{
@@ -719,6 +736,18 @@ var zzG10Num = map[string]int{
 }
 
 var zzG10ClientAddr = map[string]string{"c1": "127.0.0.2", "c2": "127.0.0.3"}
+
+// DHCP settings are only ever stored, never enabled: the rig must not serve
+// DHCP on the host.
+var zzG10DHCP = map[string][5]string{
+	"cfg1": {"192.168.10.1", "255.255.255.0", "192.168.10.100", "192.168.10.200", "3600"},
+	"cfg2": {"192.168.20.1", "255.255.255.0", "192.168.20.100", "192.168.20.150", "7200"},
+}
+
+var zzG10Leases = map[string][3]string{
+	"l1": {"aa:bb:cc:dd:ee:01", "192.168.10.50", "g10h1"},
+	"l2": {"aa:bb:cc:dd:ee:02", "192.168.10.51", "g10h2"},
+}
 
 type zzG10M = map[string]any
 
@@ -767,6 +796,8 @@ func (a *zzG10Arena) accessBody(v string) (m zzG10M) {
 		m["blocked_hosts"] = append(hosts, "acc.g10.test")
 	case "allow":
 		m["allowed_clients"] = []string{"127.0.0.1", "127.0.0.2", "127.0.0.3"}
+	case "nohosts":
+		m["blocked_hosts"] = []string{}
 	case "dup":
 		m["disallowed_clients"] = []string{"127.0.0.9", "127.0.0.9"}
 		m["blocked_hosts"] = append(hosts, "other.g10.test")
@@ -941,6 +972,8 @@ var zzG10Malformed = map[string][2]string{
 	"stats":            {http.MethodPut, "/control/stats/config/update"},
 	"language":         {http.MethodPost, "/control/i18n/change_language"},
 	"profile":          {http.MethodPut, "/control/profile/update"},
+	"dhcp_set_config":  {http.MethodPost, "/control/dhcp/set_config"},
+	"dhcp_add_lease":   {http.MethodPost, "/control/dhcp/add_static_lease"},
 }
 
 // request turns a label into the HTTP request that asks for it.
@@ -990,6 +1023,12 @@ func (a *zzG10Arena) request(l zzG10Lab) (method, path string, body []byte, ok b
 			return http.MethodPut, "/control/stats/config/update", zzG10JSON(a.logConfBody("stats", l.V)), true
 		case "lang":
 			return post, "/control/i18n/change_language", zzG10JSON(zzG10M{"language": l.V}), true
+		case "dhcp":
+			c := zzG10DHCP[l.V]
+
+			return post, "/control/dhcp/set_config", zzG10JSON(zzG10M{"enabled": false, "interface_name": "lo",
+				"v4": zzG10M{"gateway_ip": c[0], "subnet_mask": c[1], "range_start": c[2], "range_end": c[3],
+					"lease_duration": zzG10Atoi(c[4])}}), true
 		}
 	case "malformed":
 		e, found := zzG10Malformed[l.C]
@@ -1025,6 +1064,11 @@ func (a *zzG10Arena) request(l zzG10Lab) (method, path string, body []byte, ok b
 		return post, "/control/safesearch/disable", nil, true
 	case "svc_legacy":
 		return post, "/control/blocked_services/set", zzG10JSON(zzG10Services[l.V]), true
+	case "lease_add", "lease_rm":
+		e := zzG10Leases[l.V]
+		path := map[string]string{"lease_add": "/control/dhcp/add_static_lease", "lease_rm": "/control/dhcp/remove_static_lease"}[l.Op]
+
+		return post, path, zzG10JSON(zzG10M{"mac": e[0], "ip": e[1], "hostname": e[2]}), true
 	case "profile":
 		return http.MethodPut, "/control/profile/update", zzG10JSON(zzG10M{"name": "", "language": l.V, "theme": l.W}), true
 	}
@@ -1157,6 +1201,10 @@ type zzG10Raw struct {
 	sIgn                                 []string
 	lang, theme                          string
 	lang2                                string
+	dhcpOn                               bool
+	dhcpIface                            string
+	dhcp4                                [5]string
+	leases                               [][3]string
 	bad                                  []string
 }
 
@@ -1333,6 +1381,8 @@ func (a *zzG10Arena) absOf(r *zzG10Raw) (st zzG10M) {
 		st["svc"] = "s12"
 	case r.svcSched == 0 && ids == "500px":
 		st["svc"] = "s2"
+	case r.svcSched == 0 && ids == "4chan,nosuchservice":
+		st["svc"] = "unknown"
 	case r.svcSched == 7 && ids == "4chan":
 		st["svc"] = "s1p"
 	default:
@@ -1366,7 +1416,10 @@ func (a *zzG10Arena) absOf(r *zzG10Raw) (st zzG10M) {
 		st["acc"] = "?" + acc
 	}
 
-	if len(r.hosts)-len(hosts) != len(zzG10DefaultBlockedHosts) {
+	switch {
+	case len(r.hosts) == 0 && acc == "||":
+		st["acc"] = "nohosts"
+	case len(r.hosts)-len(hosts) != len(zzG10DefaultBlockedHosts):
 		st["acc"] = "?hosts " + strings.Join(r.hosts, ",")
 	}
 
@@ -1443,6 +1496,34 @@ func (a *zzG10Arena) absOf(r *zzG10Raw) (st zzG10M) {
 
 	st["theme"] = r.theme
 
+	st["dhcp"] = fmt.Sprintf("?%v %s %v", r.dhcpOn, r.dhcpIface, r.dhcp4)
+	switch {
+	case r.dhcpOn:
+	case r.dhcpIface == "" && r.dhcp4[0] == "" && r.dhcp4[2] == "":
+		st["dhcp"] = "none"
+	case r.dhcpIface == "lo":
+		for k, v := range zzG10DHCP {
+			if v == r.dhcp4 {
+				st["dhcp"] = k
+			}
+		}
+	}
+
+	ls := []string{}
+	for _, e := range r.leases {
+		id := "?" + strings.Join(e[:], "/")
+		for k, v := range zzG10Leases {
+			if v == e {
+				id = k
+			}
+		}
+
+		ls = append(ls, id)
+	}
+
+	sort.Strings(ls)
+	st["leases"] = ls
+
 	return st
 }
 
@@ -1461,7 +1542,7 @@ func (a *zzG10Arena) reported() (st zzG10M, err error) {
 		return v, nil
 	}
 
-	var d, f, sb, par, ss, rw, svc, acc, cl, ql, sc, prof, lng any
+	var d, f, sb, par, ss, rw, svc, acc, cl, ql, sc, prof, lng, dh any
 	for _, g := range []struct {
 		p string
 		v *any
@@ -1469,7 +1550,7 @@ func (a *zzG10Arena) reported() (st zzG10M, err error) {
 		{"/control/parental/status", &par}, {"/control/safesearch/status", &ss}, {"/control/rewrite/list", &rw},
 		{"/control/blocked_services/get", &svc}, {"/control/access/list", &acc}, {"/control/clients", &cl},
 		{"/control/querylog/config", &ql}, {"/control/stats/config", &sc}, {"/control/profile", &prof},
-		{"/control/i18n/current_language", &lng}} {
+		{"/control/i18n/current_language", &lng}, {"/control/dhcp/status", &dh}} {
 		if *g.v, err = get(g.p); err != nil {
 			return nil, err
 		}
@@ -1500,6 +1581,19 @@ func (a *zzG10Arena) reported() (st zzG10M, err error) {
 		sIgn: zzG10Strs(zzG10Dig(sc, "ignored")),
 		lang: zzG10Str(zzG10Dig(prof, "language")), theme: zzG10Str(zzG10Dig(prof, "theme")),
 		lang2: zzG10Str(zzG10Dig(lng, "language")),
+		dhcpOn: zzG10Bool(zzG10Dig(dh, "enabled")), dhcpIface: zzG10Str(zzG10Dig(dh, "interface_name")),
+		dhcp4: [5]string{zzG10Str(zzG10Dig(dh, "v4", "gateway_ip")), zzG10Str(zzG10Dig(dh, "v4", "subnet_mask")),
+			zzG10Str(zzG10Dig(dh, "v4", "range_start")), zzG10Str(zzG10Dig(dh, "v4", "range_end")),
+			fmt.Sprint(zzG10Int(zzG10Dig(dh, "v4", "lease_duration")))},
+	}
+	if r.dhcpIface == "" {
+		r.dhcp4[4] = ""
+	}
+
+	if l, ok := zzG10Dig(dh, "static_leases").([]any); ok {
+		for _, x := range l {
+			r.leases = append(r.leases, [3]string{zzG10Str(zzG10Dig(x, "mac")), zzG10Str(zzG10Dig(x, "ip")), zzG10Str(zzG10Dig(x, "hostname"))})
+		}
 	}
 	if !r.ecsCustom {
 		r.ecsIP = ""
@@ -1595,6 +1689,30 @@ func (a *zzG10Arena) fileState() (st zzG10M, err error) {
 		r.ecsIP = ""
 	}
 
+	r.dhcpOn = zzG10Bool(zzG10Dig(y, "dhcp", "enabled"))
+	r.dhcpIface = zzG10Str(zzG10Dig(y, "dhcp", "interface_name"))
+	r.dhcp4 = [5]string{zzG10Str(zzG10Dig(y, "dhcp", "dhcpv4", "gateway_ip")), zzG10Str(zzG10Dig(y, "dhcp", "dhcpv4", "subnet_mask")),
+		zzG10Str(zzG10Dig(y, "dhcp", "dhcpv4", "range_start")), zzG10Str(zzG10Dig(y, "dhcp", "dhcpv4", "range_end")),
+		fmt.Sprint(zzG10Int(zzG10Dig(y, "dhcp", "dhcpv4", "lease_duration")))}
+	if r.dhcpIface == "" {
+		r.dhcp4[4] = ""
+	}
+
+	// The static leases live in data/leases.json.
+	if lb, lerr := os.ReadFile(filepath.Join(a.work, "data", "leases.json")); lerr == nil {
+		var lj any
+		if json.Unmarshal(lb, &lj) != nil {
+			r.bad = append(r.bad, "leases.json does not parse")
+		}
+
+		ll, _ := zzG10Dig(lj, "leases").([]any)
+		for _, x := range ll {
+			if zzG10Bool(zzG10Dig(x, "static")) {
+				r.leases = append(r.leases, [3]string{zzG10Str(zzG10Dig(x, "mac")), zzG10Str(zzG10Dig(x, "ip")), zzG10Str(zzG10Dig(x, "hostname"))})
+			}
+		}
+	}
+
 	if l, ok := zzG10Dig(y, "filters").([]any); ok {
 		ids := map[string]bool{}
 		for _, x := range l {
@@ -1677,7 +1795,7 @@ func zzG10Forwarded(sig string) (ok bool) {
 func (a *zzG10Arena) effects(st zzG10M) (bad []string) {
 	s := func(c string) string { v, _ := st[c].(string); return v }
 	sub := func(c, k string) string { m, _ := st[c].(zzG10M); v, _ := m[k].(string); return v }
-	known := func(c string) bool { return !strings.HasPrefix(s(c), "?") && s(c) != "bad" }
+	known := func(c string) bool { return !strings.HasPrefix(s(c), "?") && s(c) != "bad" && s(c) != "unknown" }
 	miss := func(c, want, got string) { bad = append(bad, fmt.Sprintf("%s=%s: expected %s, saw %s", c, zzG10Canon(st[c]), want, got)) }
 
 	// Safe browsing and parental control ask a remote service for every
@@ -2471,14 +2589,14 @@ func (a *zzG10Arena) randomLabel(rep zzG10M) (l zzG10Lab) {
 		"cttl": {"0-0", "60-3600", "0-600"}, "upmode": {"lb", "parallel", "fastest"}, "lptr": {"none", "L"},
 		"useptr": {"off", "on"}, "uto": {"10", "3", "30"}, "fcfg": {"on-24", "off-24", "on-72", "on-0", "off-72", "on-168"},
 		"rules": {"none", "r1", "r12", "r2"}, "sb": {"off", "on"}, "par": {"off", "on"}, "ss": {"off", "all", "nogoogle"},
-		"svc": {"none", "s1", "s12", "s1p", "s2"}, "acc": {"none", "dis", "host", "allow"},
+		"svc": {"none", "s1", "s12", "s1p", "s2"}, "acc": {"none", "dis", "host", "allow", "nohosts"},
 		"qlog": {"def", "off", "anon", "ivl7", "ign", "ivl1"}, "stats": {"def", "off", "ivl7", "ign", "ivl30"},
-		"lang": {"en", "de", "fr"},
+		"lang": {"en", "de", "fr"}, "dhcp": {"cfg1", "cfg2"},
 	}
 	refused := []zzG10Lab{
 		{Op: "set", C: "blk", V: "bogus"}, {Op: "set", C: "rl4", V: "33"}, {Op: "set", C: "upmode", V: "bogus"},
 		{Op: "set", C: "uto", V: "0"}, {Op: "set", C: "fcfg", V: "on-5"}, {Op: "set", C: "fcfg", V: "off-5"},
-		{Op: "set", C: "svc", V: "badsched"}, {Op: "set", C: "acc", V: "dup"}, {Op: "set", C: "acc", V: "both"},
+		{Op: "set", C: "svc", V: "badsched"}, {Op: "set", C: "svc", V: "unknown"}, {Op: "set", C: "acc", V: "dup"}, {Op: "set", C: "acc", V: "both"},
 		{Op: "set", C: "qlog", V: "noenabled"}, {Op: "set", C: "stats", V: "noenabled"}, {Op: "set", C: "lang", V: "xx"},
 		{Op: "set", C: "ups", V: "bad"}, {Op: "set", C: "boot", V: "bad"}, {Op: "set", C: "cttl", V: "3600-60"},
 		{Op: "profile", V: "xx", W: "dark"}, {Op: "profile", V: "de", W: "pink"},
@@ -2508,9 +2626,11 @@ func (a *zzG10Arena) randomLabel(rep zzG10M) (l zzG10Lab) {
 			return zzG10Lab{Op: pick([]string{"cl_add", "cl_add", "cl_upd"}), V: pick([]string{"c1", "c2"}), W: pick([]string{"a", "b"})}
 		case n < 88:
 			return zzG10Lab{Op: "cl_del", V: pick([]string{"c1", "c2"})}
-		case n < 90:
+		case n < 89:
 			return zzG10Lab{Op: pick([]string{"ss_enable", "ss_disable", "ss_disable"})}
-		case n < 94:
+		case n < 92:
+			return zzG10Lab{Op: pick([]string{"lease_add", "lease_add", "lease_rm"}), V: pick([]string{"l1", "l2"})}
+		case n < 95:
 			if s, _ := rep["svc"].(string); s == "s1p" {
 				return zzG10Lab{Op: "set", C: "svc", V: "none"}
 			}
@@ -2538,6 +2658,13 @@ func (a *zzG10Arena) randomLabel(rep zzG10M) (l zzG10Lab) {
 		for {
 			l = inner()
 			if (l.Op == "rw_add" && has(l.V)) || (l.Op == "rw_upd" && l.V != l.W && has(l.W)) {
+				continue
+			}
+
+			// DHCP settings only without leases, leases only on cfg1's network.
+			nl, _ := rep["leases"].([]string)
+			dh, _ := rep["dhcp"].(string)
+			if (l.Op == "set" && l.C == "dhcp" && len(nl) > 0) || (strings.HasPrefix(l.Op, "lease_") && dh != "cfg1") {
 				continue
 			}
 
